@@ -251,6 +251,135 @@ def _set_exprs(fn):
             yield n
 
 
+
+class _SetUse:
+    """Is a set-valued expression used only in ways that cannot see its iteration order?  Followed through local names,
+    through parameters of repository functions it is handed to, and through return values to the callers."""
+    FREE_CALLS = ("sorted", "len", "min", "max", "sum", "any", "all", "bool")
+    SET_CALLS = ("set", "frozenset")
+    FREE_METHODS = ("add", "discard", "remove", "clear", "issubset", "issuperset", "isdisjoint", "__contains__")
+    SET_METHODS = ("union", "intersection", "difference", "symmetric_difference", "copy")
+    INTO_SET_METHODS = ("update", "intersection_update", "difference_update", "symmetric_difference_update",
+                        "issubset", "issuperset", "isdisjoint", "union", "intersection", "difference", "symmetric_difference")
+
+    def __init__(self, ctx):
+        self.ctx = ctx
+        self._par: dict = {}
+        self._busy: set = set()
+
+    def parents(self, fi):
+        if fi.fq not in self._par:
+            d = {}
+            for n in ast.walk(fi.node):
+                for c in ast.iter_child_nodes(n):
+                    d[id(c)] = n
+            self._par[fi.fq] = d
+        return self._par[fi.fq]
+
+    def _is_set_name(self, fi, nm: str) -> bool:
+        for d in assigned_names(fi.node).get(nm, []):
+            v = getattr(d, "value", None)
+            if v is not None and (isinstance(v, (ast.Set, ast.SetComp)) or (isinstance(v, ast.Call) and isinstance(v.func, ast.Name) and v.func.id in self.SET_CALLS)):
+                return True
+        return False
+
+    def name_free(self, fi, nm: str, depth):
+        key = (fi.fq, nm)
+        if key in self._busy:
+            return True, ""
+        self._busy.add(key)
+        try:
+            for u in own_walk(fi.node):
+                if isinstance(u, ast.Name) and u.id == nm and isinstance(u.ctx, ast.Load):
+                    ok1, why1 = self.order_free(fi, u, depth)
+                    if not ok1:
+                        return False, why1
+            return True, ""
+        finally:
+            self._busy.discard(key)
+
+    def order_free(self, fi, e, depth=0):
+        """(True, '') if the set-valued expression e is used only in ways that cannot see its iteration order"""
+        if depth > 8:
+            return False, "use chain too long"
+        p = self.parents(fi).get(id(e))
+        if p is None or isinstance(p, ast.Expr):
+            return True, ""
+        if isinstance(p, ast.Compare):
+            return True, ""
+        if isinstance(p, (ast.If, ast.While, ast.IfExp, ast.Assert)) and p.test is e:
+            return True, ""
+        if isinstance(p, ast.BoolOp) or (isinstance(p, ast.UnaryOp) and isinstance(p.op, ast.Not)):
+            return self.order_free(fi, p, depth + 1) if not isinstance(p, ast.UnaryOp) else (True, "")
+        if isinstance(p, ast.BinOp) and isinstance(p.op, (ast.BitAnd, ast.BitOr, ast.Sub, ast.BitXor)):
+            return self.order_free(fi, p, depth + 1)
+        if isinstance(p, ast.AugAssign) and isinstance(p.op, (ast.BitAnd, ast.BitOr, ast.Sub, ast.BitXor)):
+            if p.value is e and isinstance(p.target, ast.Name):
+                return self.name_free(fi, p.target.id, depth + 1)
+            return True, ""
+        if isinstance(p, ast.comprehension) and p.iter is e:
+            # iterated by a comprehension: fine when the comprehension builds a set again (or feeds an order-free consumer)
+            comp = self.parents(fi).get(id(p))
+            if isinstance(comp, ast.SetComp):
+                return self.order_free(fi, comp, depth + 1)
+            if isinstance(comp, (ast.GeneratorExp, ast.ListComp)):
+                pp = self.parents(fi).get(id(comp))
+                if isinstance(pp, ast.Call) and comp in pp.args and isinstance(pp.func, ast.Name) and pp.func.id in self.FREE_CALLS + self.SET_CALLS:
+                    return (True, "") if pp.func.id in self.FREE_CALLS else self.order_free(fi, pp, depth + 1)
+            return False, f"`{short(comp if comp is not None else p)}` visits the set in iteration order"
+        if isinstance(p, ast.Call):
+            if isinstance(p.func, ast.Name) and p.func.id in self.FREE_CALLS and e in p.args:
+                return True, ""
+            if isinstance(p.func, ast.Name) and p.func.id in self.SET_CALLS and e in p.args:
+                return self.order_free(fi, p, depth + 1)
+            if isinstance(p.func, ast.Attribute) and e in p.args and p.func.attr in self.INTO_SET_METHODS:
+                # handed to a set operation of another object: that object must itself be a set used order-free
+                recv = p.func.value
+                if p.func.attr in ("issubset", "issuperset", "isdisjoint"):
+                    return True, ""
+                if isinstance(recv, ast.Name):
+                    if not self._is_set_name(fi, recv.id):
+                        return False, f"`{short(p)}` feeds the set into a container that keeps insertion order"
+                    return self.name_free(fi, recv.id, depth + 1) if p.func.attr.endswith("update") else self.order_free(fi, p, depth + 1)
+                return self.order_free(fi, p, depth + 1)
+            if e in p.args:
+                # handed to a function of the repository: followed through the parameter it arrives in
+                cs = self.ctx.cg.resolve_call(fi, p, self.ctx.cg.local_types(fi), set(params_of(fi.node)))
+                if cs.kind == "tucan":
+                    ps = params_of(cs.target.node)
+                    off = 1 if cs.target.cls is not None and isinstance(p.func, ast.Attribute) else 0
+                    i = p.args.index(e) + off
+                    if i < len(ps):
+                        return self.name_free(cs.target, ps[i], depth + 1)
+        if isinstance(p, ast.Attribute) and p.value is e:
+            pp = self.parents(fi).get(id(p))
+            if isinstance(pp, ast.Call) and pp.func is p:
+                if p.attr in self.FREE_METHODS or p.attr.endswith("_update") or p.attr == "update":
+                    return True, ""
+                if p.attr in self.SET_METHODS:
+                    return self.order_free(fi, pp, depth + 1)
+            return False, f"`{short(pp if pp is not None else p)}` consumes the set in iteration order"
+        if isinstance(p, (ast.Assign, ast.AnnAssign, ast.NamedExpr)) and getattr(p, "value", None) is e:
+            tg = p.targets[0] if isinstance(p, ast.Assign) else p.target
+            if isinstance(tg, ast.Name):
+                ok1, why1 = self.name_free(fi, tg.id, depth + 1)
+                if isinstance(p, ast.NamedExpr) and ok1:
+                    return self.order_free(fi, p, depth + 1)
+                return ok1, why1
+            return False, f"`{short(p)}` stores the set where its later use is not followed"
+        if isinstance(p, ast.Return):
+            # handed back: every caller (in the repository) must use the result order-free
+            callers = [cs for cs in self.ctx.cg.callers_of(fi.fq)]
+            if not callers:
+                return False, f"`{short(p)}` hands the set to the caller"
+            for cs in callers:
+                ok1, why1 = self.order_free(cs.caller, cs.node, depth + 1)
+                if not ok1:
+                    return False, why1
+            return True, ""
+        return False, f"`{short(p)}` consumes the set in iteration order"
+
+
 @rule("R-HASH")
 def r_hash(ctx) -> RuleResult:
     res = RuleResult("R-HASH", "no value whose order depends on set iteration (hash seed) reaches a public result")
@@ -269,100 +398,13 @@ def r_hash(ctx) -> RuleResult:
     # other public closures: any set construction must be consumed by sorted / membership / len only
     pipeline = {f.fq for f in closure(ctx, "canonicalize", "serialize")}
     n_sets = 0
+    SU = _SetUse(ctx)
     for fi in all_public_closure(ctx):
         if fi.fq in pipeline:
             continue
-        parents = {}
-        for n in ast.walk(fi.node):
-            for c in ast.iter_child_nodes(n):
-                parents[id(c)] = n
-        names = assigned_names(fi.node)
-        FREE_CALLS = ("sorted", "len", "min", "max", "sum", "any", "all", "bool")
-        SET_CALLS = ("set", "frozenset")
-        FREE_METHODS = ("add", "discard", "remove", "clear", "issubset", "issuperset", "isdisjoint", "__contains__")
-        SET_METHODS = ("union", "intersection", "difference", "symmetric_difference", "copy")
-        INTO_SET_METHODS = ("update", "intersection_update", "difference_update", "symmetric_difference_update",
-                            "issubset", "issuperset", "isdisjoint", "union", "intersection", "difference", "symmetric_difference")
-
-        def order_free(e, depth=0):
-            """(True, '') if the set-valued expression e is used only in ways that cannot see its iteration order"""
-            if depth > 6:
-                return False, "use chain too long"
-            p = parents.get(id(e))
-            if p is None or isinstance(p, ast.Expr):
-                return True, ""
-            if isinstance(p, ast.Compare):
-                return True, ""
-            if isinstance(p, (ast.If, ast.While, ast.IfExp, ast.Assert)) and p.test is e:
-                return True, ""
-            if isinstance(p, ast.BoolOp) or (isinstance(p, ast.UnaryOp) and isinstance(p.op, ast.Not)):
-                return order_free(p, depth + 1) if not isinstance(p, ast.UnaryOp) else (True, "")
-            if isinstance(p, ast.BinOp) and isinstance(p.op, (ast.BitAnd, ast.BitOr, ast.Sub, ast.BitXor)):
-                return order_free(p, depth + 1)
-            if isinstance(p, ast.AugAssign) and isinstance(p.op, (ast.BitAnd, ast.BitOr, ast.Sub, ast.BitXor)):
-                if p.value is e and isinstance(p.target, ast.Name):
-                    return name_free(p.target.id, depth + 1)
-                return True, ""
-            if isinstance(p, ast.Call):
-                if isinstance(p.func, ast.Name) and p.func.id in FREE_CALLS and e in p.args:
-                    return True, ""
-                if isinstance(p.func, ast.Name) and p.func.id in SET_CALLS and e in p.args:
-                    return order_free(p, depth + 1)
-                if isinstance(p.func, ast.Attribute) and e in p.args and p.func.attr in INTO_SET_METHODS:
-                    # handed to a set operation of another object: that object must itself be a set used order-free
-                    recv = p.func.value
-                    if p.func.attr in ("issubset", "issuperset", "isdisjoint"):
-                        return True, ""
-                    if isinstance(recv, ast.Name):
-                        if not _is_set_name(recv.id):
-                            return False, f"`{short(p)}` feeds the set into a container that keeps insertion order"
-                        return name_free(recv.id, depth + 1) if p.func.attr.endswith("update") else order_free(p, depth + 1)
-                    return order_free(p, depth + 1)
-            if isinstance(p, ast.Attribute) and p.value is e:
-                pp = parents.get(id(p))
-                if isinstance(pp, ast.Call) and pp.func is p:
-                    if p.attr in FREE_METHODS or p.attr.endswith("_update") or p.attr == "update":
-                        return True, ""
-                    if p.attr in SET_METHODS:
-                        return order_free(pp, depth + 1)
-                return False, f"`{short(pp if pp is not None else p)}` consumes the set in iteration order"
-            if isinstance(p, (ast.Assign, ast.AnnAssign, ast.NamedExpr)) and getattr(p, "value", None) is e:
-                tg = p.targets[0] if isinstance(p, ast.Assign) else p.target
-                if isinstance(tg, ast.Name):
-                    ok1, why1 = name_free(tg.id, depth + 1)
-                    if isinstance(p, ast.NamedExpr) and ok1:
-                        return order_free(p, depth + 1)
-                    return ok1, why1
-                return False, f"`{short(p)}` stores the set where its later use is not followed"
-            if isinstance(p, ast.Return):
-                return False, f"`{short(p)}` hands the set to the caller"
-            return False, f"`{short(p)}` consumes the set in iteration order"
-
-        def _is_set_name(nm: str) -> bool:
-            for d in names.get(nm, []):
-                v = getattr(d, "value", None)
-                if v is not None and (isinstance(v, (ast.Set, ast.SetComp)) or (isinstance(v, ast.Call) and isinstance(v.func, ast.Name) and v.func.id in SET_CALLS)):
-                    return True
-            return False
-
-        _busy = set()
-
-        def name_free(nm: str, depth):
-            if nm in _busy:
-                return True, ""
-            _busy.add(nm)
-            try:
-                for u in own_walk(fi.node):
-                    if isinstance(u, ast.Name) and u.id == nm and isinstance(u.ctx, ast.Load):
-                        ok1, why1 = order_free(u, depth)
-                        if not ok1:
-                            return False, why1
-                return True, ""
-            finally:
-                _busy.discard(nm)
         for se in _set_exprs(fi.node):
             n_sets += 1
-            ok, why = order_free(se)
+            ok, why = SU.order_free(fi, se)
             res.inst(fi.fq, short(se), "ok" if ok else "fail")
             if not ok:
                 res.fail(Finding("R-HASH", fi.module.rel, fi.qualname, norm(se), f"set iteration order may reach a result: {why}", line=se.lineno))
